@@ -317,9 +317,9 @@ def run_history(history, compile_flags=None, lookups=None):
         try:
             kw = {'compile': True} if compile_flags and compile_flags[i] else {}
             r.add_route(t, _Res(), **kw)
-            if t in accepted:
-                accepted.remove(t)
-            accepted.append(t)
+            # re-registering a template replaces the resource of its existing node: the node keeps its place among its siblings
+            if t not in accepted:
+                accepted.append(t)
         except (UnacceptableRouteError, ValueError):
             rejected.append(t)
         if lookups and lookups[i]:
